@@ -220,3 +220,112 @@ def variance_ddof(fn: FuncInfo) -> int | None:
                 return d.value
             return None
     return None
+
+
+# ----------------------------------------------------------------------------
+# helpers that make rules robust to "extract method" refactors and to negated / early-return guards
+# ----------------------------------------------------------------------------
+def guard_flag(g):
+    """(positive test expression, polarity) of a guard with leading ``not`` stripped"""
+    t, pol = g.test, g.polarity
+    while isinstance(t, ast.UnaryOp) and isinstance(t.op, ast.Not):
+        t, pol = t.operand, not pol
+    return t, pol
+
+
+def under_flag(ff: FuncFacts, node: ast.AST, attr: str, want: bool = True) -> bool:
+    """node only executes when ``self.<attr>`` is <want> (nesting, early exits, negations all normalised)"""
+    for g in ff.guards(node):
+        t, pol = guard_flag(g)
+        if is_self_attr(t, attr) and pol == want:
+            return True
+    return False
+
+
+def class_closure(pm: PM, cls: ClassInfo, entry: FuncInfo) -> list[FuncInfo]:
+    """entry plus the same-class helpers (methods / static methods) it calls, transitively"""
+    seen: dict[str, FuncInfo] = {}
+    stack = [entry]
+    while stack:
+        fn = stack.pop()
+        if fn.qualname in seen:
+            continue
+        seen[fn.qualname] = fn
+        ctx = Ctx(pm, fn, cls)
+        for call in calls_in(fn):
+            for t in ctx.resolve_call(call) + ctx.func_refs(call):
+                if t.fn is not None and t.fn.cls is not None and t.fn.cls in cls.mro and (t.recv == "self" or t.via in ("class", "ref")):
+                    stack.append(t.fn)
+    return list(seen.values())
+
+
+def callers_in_class(pm: PM, cls: ClassInfo, callee: FuncInfo) -> list[tuple[FuncInfo, ast.Call]]:
+    out = []
+    for c in cls.mro:
+        for m in c.methods.values():
+            if cls.resolve(m.name) is not m:
+                continue
+            ctx = Ctx(pm, m, cls)
+            for call in calls_in(m):
+                if any(t.fn is callee for t in ctx.resolve_call(call)):
+                    out.append((m, call))
+    return out
+
+
+def resolve_sources(pm: PM, cls: ClassInfo, fn: FuncInfo, expr: ast.expr, depth: int = 0) -> set[str]:
+    """names of the ultimate sources of ``expr`` in ``fn``: 'self.attr', 'const:<v>', 'param:<p>' ...; a parameter of a
+    private helper is followed to the arguments at the helper's call sites inside the class"""
+    ff = FuncFacts.of(fn)
+    out: set[str] = set()
+    for p in ff.paths(expr, spine_only=True):
+        a = p.atom
+        if a.kind == "selfattr":
+            out.add(a.name + "".join(f"[{o.name}]" for o in p.ops if o.kind == "subscript"))
+        elif a.kind == "const":
+            out.add("const:" + a.name)
+        elif a.kind == "param":
+            sites = callers_in_class(pm, cls, fn) if (depth < 3 and fn.name.startswith("_")) else []
+            if not sites:
+                out.add("param:" + a.name + "".join(f"[{o.name}]" for o in p.ops if o.kind == "subscript"))
+            for caller, call in sites:
+                b = bind_args(fn, call)
+                if a.name in b:
+                    sub = resolve_sources(pm, cls, caller, b[a.name], depth + 1)
+                    suffix = "".join(f"[{o.name}]" for o in p.ops if o.kind == "subscript")
+                    out |= {s + suffix for s in sub}
+                else:
+                    out.add("default:" + a.name)
+        elif a.kind == "call":
+            out.add("call:" + a.name)
+        else:
+            out.add(a.kind + ":" + a.name)
+    return out
+
+
+def inline_locals(ff: FuncFacts, expr: ast.expr, depth: int = 6) -> ast.expr:
+    """a copy of ``expr`` in which every local name that has exactly one reaching definition of the plain form
+    ``name = <expression>`` is replaced by that expression (recursively): rules that look at the SHAPE of a formula are
+    then indifferent to whether intermediate results were given names.  Names with several reaching definitions
+    (branches, loops), parameters, unpacked tuples and augmented assignments are left alone."""
+    import copy
+
+    def rec(e: ast.AST, at: int, d: int):
+        if isinstance(e, ast.Name) and isinstance(e.ctx, ast.Load):
+            if d <= 0:
+                return copy.deepcopy(e)
+            defs = ff.rd.reaching(e.id, at)
+            if len(defs) == 1 and defs[0].kind == "assign" and not defs[0].index and isinstance(defs[0].value, ast.expr) \
+                    and isinstance(defs[0].stmt, ast.Assign) and len(defs[0].stmt.targets) == 1 and isinstance(defs[0].stmt.targets[0], ast.Name):
+                return rec(defs[0].value, defs[0].node, d - 1)
+            return copy.deepcopy(e)
+        if isinstance(e, (ast.Lambda, ast.ListComp, ast.SetComp, ast.DictComp, ast.GeneratorExp)):
+            return copy.deepcopy(e)
+        new = copy.copy(e)
+        for field, val in ast.iter_fields(e):
+            if isinstance(val, ast.AST):
+                setattr(new, field, rec(val, at, d))
+            elif isinstance(val, list):
+                setattr(new, field, [rec(v, at, d) if isinstance(v, ast.AST) else v for v in val])
+        return new
+
+    return rec(expr, ff.node_of(expr), depth)
